@@ -19,7 +19,7 @@ func (s *sched) model(p unsafe.Pointer, keep any, capacity int) *chanModel {
 	}
 	cm := s.chans[p]
 	if cm == nil {
-		cm = &chanModel{seq: len(s.chans), keep: keep, cap: capacity}
+		cm = &chanModel{seq: len(s.chans), id: uintptr(p), elem: reflect.TypeOf(keep).Elem(), keep: keep, cap: capacity}
 		s.chans[p] = cm
 	}
 	return cm
